@@ -21,6 +21,8 @@ TEMPLATE = open(os.path.join(V, "tools", "seed_prompt.txt")).read()
 for line in open(os.path.join(V, "properties.jsonl")):
     prop = json.loads(line)
     ID = prop["id"]
+    if os.environ.get("ONLY") and ID not in os.environ["ONLY"].split(","):
+        continue
     json.dump(prop, open(f"{root}/prop_{ID}.json", "w"), indent=1)
     taken = []
     for m in sorted(glob.glob(os.path.join(V, "seeded", f"{ID}-*", "meta.json"))):
